@@ -194,3 +194,71 @@ func VerifC08Strings() {
 	c08RoundTrip("x := " + src)
 }
 
+
+var c08Lenient = []string{
+	"a := [1, 2,]",
+	"a := [1 2]",
+	"a := {\"a\" : 1,}",
+	"a := {\"a\" : 1 \"b\" : 2}",
+	"a := 1; b := 2",
+	"a := 1;",
+	"f(1, 2,)",
+	"f(1 2)",
+	"func f(a b) {\n}",
+	"func f(a, b,) {\n}",
+	"sink s kindmatch [\"a\"] priority 1 {\n a\n}",
+	"sink s kindmatch [\"a\"], priority 1, {\n a\n}",
+	"sink s\n kindmatch [\"a\"]\n scopematch []\n {\n a\n}",
+	"if (a) {\n b\n}",
+	"for (a in b) {\n}",
+	"for a in b {}",
+	"if a {} else {}",
+	"import \"a\" as b;",
+	"mutex m {}",
+	"return (1)",
+	"a := (1)",
+	"a := ((b))",
+	"a := b . c",
+	"a := b [ 1 ]",
+	"a := f ( 1 )",
+	"[a, b] := c",
+	"let [a, b] := c",
+	"[a,b,] := c",
+	"try {} except {}",
+	"try {} finally {}",
+	"a := -(-1)",
+	"a := - - 1",
+	"a := not not b",
+}
+
+// VerifC08LenientForms: source forms the parser accepts although the printer writes them differently (optional or
+// dangling separators, optional parentheses and blanks, one-line blocks) and every shape of an except clause (0..2
+// error names separated by commas or blanks, no binder / "as e" / bare "e"): whatever parses survives the round trip.
+func VerifC08LenientForms() {
+	if zz.Bool("exceptShape") {
+		n := zz.Choice("names", 3)
+		sep := zz.Choice("sep", 2)
+		bind := zz.Choice("bind", 4)
+		src := "try {\n    a\n} except"
+		for i := 0; i < n; i++ {
+			if i > 0 && sep == 0 {
+				src += ","
+			}
+			src += " \"E" + c08Digits[i] + "\""
+		}
+		switch bind {
+		case 1:
+			src += " as e"
+		case 2:
+			src += " e"
+		case 3:
+			src += ", e"
+		}
+		src += " {\n    b\n}"
+		c08RoundTrip(src)
+		return
+	}
+	c08RoundTrip(c08Lenient[zz.Choice("form", len(c08Lenient))])
+}
+
+var c08Digits = []string{"0", "1", "2"}
